@@ -70,6 +70,80 @@ Section Steps.
     intros H1 H2. cbn [pe_loop].
     eapply run_bind; [unfold parse_suffix_expr; apply run_call; exact H1|exact H2].
   Qed.
+  (* ---- arrays *)
+  Lemma run_for_spec_miss c t : is_simple KFor c = false ->
+    run (maybe_parse_for_spec pexpr) (c :: t) None (c :: t).
+  Proof.
+    intros H. unfold maybe_parse_for_spec. apply run_call.
+    eapply run_orelse_miss; [apply run_eat_miss; exact H|apply run_ret].
+  Qed.
+
+  Lemma run_comp_spec_miss c t : is_simple KFor c = false ->
+    run (maybe_parse_comp_spec pexpr (S lf)) (c :: t) None (c :: t).
+  Proof.
+    intros H. unfold maybe_parse_comp_spec. apply run_call.
+    eapply run_orelse_miss; [apply run_for_spec_miss; exact H|apply run_ret].
+  Qed.
+
+  Lemma pl_primary_bracket f stk t (a : expr) t' : t <> [] ->
+    run (IFLET en <== eat_simple SRightBracket true
+         THEN (sp <- mk_span sp0 en ;; PL f (StParsed (EArray sp [])) stk)
+         ELSE PL f (init_state T) (SiArrayItem0 sp0 :: stk)) t a t' ->
+    run (PL (S f) StPrimary stk) (sim SLeftBracket :: t) a t'.
+  Proof.
+    intros Ht H. cbn [pe_loop]. do 2 (eapply run_orelse_miss; [run_compute|]).
+    eapply run_orelse_hit; [apply run_eat_hit; [reflexivity|exact Ht]|]. exact H.
+  Qed.
+
+  Lemma pl_item0_single f e stk t (a : expr) t' : t <> [] ->
+    run (PL f (StParsed (EArray sp0 [e])) stk) t a t' ->
+    run (PL (S f) (StParsed e) (SiArrayItem0 sp0 :: stk)) (sim SRightBracket :: t) a t'.
+  Proof.
+    intros Ht H. cbn [pe_loop].
+    eapply run_bind; [apply run_eat_miss; reflexivity|].
+    eapply run_orelse_miss; [apply run_comp_spec_miss; reflexivity|].
+    eapply run_orelse_hit; [apply run_eat_hit; [reflexivity|exact Ht]|].
+    eapply run_bind; [apply run_mk_span0|]. exact H.
+  Qed.
+
+  Lemma pl_item0_more f e stk c t (a : expr) t' : starter c = true ->
+    run (PL f (init_state T) (SiArrayItemN sp0 [e] :: stk)) (c :: t) a t' ->
+    run (PL (S f) (StParsed e) (SiArrayItem0 sp0 :: stk)) (sim SComma :: c :: t) a t'.
+  Proof.
+    intros Hc H. cbn [pe_loop].
+    eapply run_bind; [apply run_eat_hit; [reflexivity|discriminate]|].
+    eapply run_orelse_miss; [apply run_comp_spec_miss; apply starter_not; [exact Hc|reflexivity]|].
+    eapply run_orelse_miss; [apply run_eat_miss; apply starter_not; [exact Hc|reflexivity]|].
+    exact H.
+  Qed.
+
+  Lemma pl_itemN_last f e items stk t (a : expr) t' : t <> [] ->
+    run (PL f (StParsed (EArray sp0 (items ++ [e]))) stk) t a t' ->
+    run (PL (S f) (StParsed e) (SiArrayItemN sp0 items :: stk)) (sim SRightBracket :: t) a t'.
+  Proof.
+    intros Ht H. cbn [pe_loop]. cbv zeta.
+    eapply run_bind; [apply run_eat_miss; reflexivity|].
+    eapply run_orelse_hit; [apply run_eat_hit; [reflexivity|exact Ht]|].
+    eapply run_bind; [apply run_mk_span0|]. exact H.
+  Qed.
+
+  Lemma pl_itemN_more f e items stk c t (a : expr) t' : starter c = true ->
+    run (PL f (init_state T) (SiArrayItemN sp0 (items ++ [e]) :: stk)) (c :: t) a t' ->
+    run (PL (S f) (StParsed e) (SiArrayItemN sp0 items :: stk)) (sim SComma :: c :: t) a t'.
+  Proof.
+    intros Hc H. cbn [pe_loop]. cbv zeta.
+    eapply run_bind; [apply run_eat_hit; [reflexivity|discriminate]|].
+    eapply run_orelse_miss; [apply run_eat_miss; apply starter_not; [exact Hc|reflexivity]|].
+    exact H.
+  Qed.
+  Lemma pl_item0_more' f e stk l c r t (a : expr) t' : l = c :: r -> starter c = true ->
+    run (PL f (init_state T) (SiArrayItemN sp0 [e] :: stk)) (l ++ t) a t' ->
+    run (PL (S f) (StParsed e) (SiArrayItem0 sp0 :: stk)) (sim SComma :: l ++ t) a t'.
+  Proof. intros -> Hc H. cbn [app] in *. apply pl_item0_more; assumption. Qed.
+  Lemma pl_itemN_more' f e items stk l c r t (a : expr) t' : l = c :: r -> starter c = true ->
+    run (PL f (init_state T) (SiArrayItemN sp0 (items ++ [e]) :: stk)) (l ++ t) a t' ->
+    run (PL (S f) (StParsed e) (SiArrayItemN sp0 items :: stk)) (sim SComma :: l ++ t) a t'.
+  Proof. intros -> Hc H. cbn [app] in *. apply pl_itemN_more; assumption. Qed.
 End Steps.
 
 (* ---------------------------------------------------------------- the covered constructors *)
@@ -80,6 +154,9 @@ Fixpoint core_expr (e : expr) : bool :=
   | EUnary _ _ x => core_expr x
   | EBinary _ l _ r => core_expr l && core_expr r
   | EInSuper _ x _ => core_expr x
+  | EArray _ items => forallb core_expr items
+  | EArrayComp _ x specs =>
+      core_expr x && specs_ok specs && forallb (fun c => match c with CFor _ y | CIf y => core_expr y end) specs
   | EField _ x _ => core_expr x
   | EIndex _ x i => core_expr x && core_expr i
   | ESlice _ x a b c =>
@@ -249,7 +326,7 @@ Qed.
 Lemma steps_fin_le k : (steps_fin k <= 19)%nat.
 Proof. unfold steps_fin. destruct (10 - k)%nat eqn:E; lia. Qed.
 
-Ltac len_tac := cbn [print_expr print_assert opt_tokens]; repeat (progress (repeat rewrite app_length; cbn [List.length])); lia.
+Ltac len_tac := cbn [print_expr print_assert opt_tokens sep_by flat_map comma]; repeat (progress (repeat rewrite app_length; cbn [List.length])); lia.
 
 (* ---------------------------------------------------------------- index, slice, call *)
 Lemma peek_named s : (peek_ident 0 s && peek_simple SEq 1 s)%bool = named_test (toks_of s).
@@ -389,6 +466,94 @@ Section Suffix.
         eapply run_orelse_hit; [apply run_eat_hit; [reflexivity|auto with rt]|].
         eapply run_bind; [apply run_pexpr; [exact Hc|exact Hw|unfold alen in Hl; cbn [print_arg List.length] in Hl; lia|exact Hs|exact He]|apply run_ret].
   Qed.
+
+  (* comprehension specs *)
+  Definition score (c : comp_spec) : bool := match c with CFor _ y | CIf y => core_expr y end.
+  Definition spec_ok (c : comp_spec) : Prop :=
+    score c = true /\ wp_spec c = true /\ (List.length (print_spec c) < L)%nat.
+  Definition spec_follow (fo : token) : Prop :=
+    stopper fo = true /\ is_simple KElse fo = false.
+
+  Lemma specs_head more fo r : spec_follow fo ->
+    exists t0 r0, flat_map print_spec more ++ fo :: r = t0 :: r0 /\ spec_follow t0.
+  Proof.
+    intros Hf. destruct more as [|[v y|y] more]; cbn [flat_map print_spec app].
+    - eexists; eexists; split; [reflexivity|exact Hf].
+    - eexists; eexists; split; [reflexivity|split; reflexivity].
+    - eexists; eexists; split; [reflexivity|split; reflexivity].
+  Qed.
+
+  Lemma run_for_spec v y t0 r0 : core_expr y = true -> wpx 0 true y = true ->
+    (List.length (print_expr y) < L)%nat -> spec_follow t0 ->
+    run (maybe_parse_for_spec pexpr) (sim KFor :: id_tok v :: sim KIn :: print_expr y ++ t0 :: r0)
+        (Some (CFor (strip_ident v) (strip_spans y))) (t0 :: r0).
+  Proof.
+    intros Hc Hw Hl (Hs & He). unfold maybe_parse_for_spec. apply run_call.
+    eapply run_orelse_hit; [apply run_eat_hit; [reflexivity|discriminate]|].
+    eapply run_bind; [unfold id_tok, tk; apply run_expect_ident_hit; discriminate|].
+    eapply run_bind; [apply run_expect_hit; [reflexivity|auto with rt]|].
+    eapply run_bind; [apply run_pexpr; [exact Hc|exact Hw|exact Hl|exact Hs|exact He]|apply run_ret].
+  Qed.
+
+  Lemma run_if_spec y t0 r0 : core_expr y = true -> wpx 0 true y = true ->
+    (List.length (print_expr y) < L)%nat -> spec_follow t0 ->
+    run (maybe_parse_if_spec pexpr) (sim KIf :: print_expr y ++ t0 :: r0) (Some (CIf (strip_spans y))) (t0 :: r0).
+  Proof.
+    intros Hc Hw Hl (Hs & He). unfold maybe_parse_if_spec. apply run_call.
+    eapply run_orelse_hit; [apply run_eat_hit; [reflexivity|auto with rt]|].
+    eapply run_bind; [apply run_pexpr; [exact Hc|exact Hw|exact Hl|exact Hs|exact He]|apply run_ret].
+  Qed.
+
+  Lemma run_for_spec_miss' c t : is_simple KFor c = false -> run (maybe_parse_for_spec pexpr) (c :: t) None (c :: t).
+  Proof.
+    intros H. unfold maybe_parse_for_spec. apply run_call.
+    eapply run_orelse_miss; [apply run_eat_miss; exact H|apply run_ret].
+  Qed.
+  Lemma run_if_spec_miss c t : is_simple KIf c = false -> run (maybe_parse_if_spec pexpr) (c :: t) None (c :: t).
+  Proof.
+    intros H. unfold maybe_parse_if_spec. apply run_call.
+    eapply run_orelse_miss; [apply run_eat_miss; exact H|apply run_ret].
+  Qed.
+
+  Lemma run_comp_loop : forall specs acc fuel fo r, (List.length specs < fuel)%nat ->
+    Forall spec_ok specs -> spec_follow fo -> is_simple KFor fo = false -> is_simple KIf fo = false ->
+    run (comp_spec_loop pexpr fuel acc) (flat_map print_spec specs ++ fo :: r) (acc ++ map strip_spec specs) (fo :: r).
+  Proof.
+    induction specs as [|sc more IH]; intros acc fuel fo r Hf Hall Hfo Hnf Hni;
+      destruct fuel as [|f]; try (cbn in Hf; lia); cbn [comp_spec_loop flat_map app map].
+    - eapply run_orelse_miss; [apply run_for_spec_miss'; exact Hnf|].
+      eapply run_orelse_miss; [apply run_if_spec_miss; exact Hni|].
+      rewrite app_nil_r. apply run_ret.
+    - inversion Hall as [|? ? (Hc & Hw & Hl) Hall']; subst.
+      destruct (specs_head more fo r Hfo) as (t0 & r0 & E0 & Hf0).
+      rewrite <- app_assoc. rewrite E0.
+      replace (acc ++ strip_spec sc :: map strip_spec more) with ((acc ++ [strip_spec sc]) ++ map strip_spec more)
+        by (rewrite <- app_assoc; reflexivity).
+      destruct sc as [v y|y]; cbn [score wp_spec print_spec strip_spec app] in *.
+      + eapply run_orelse_hit;
+          [apply run_for_spec; [exact Hc|exact Hw|cbn [List.length] in Hl; lia|exact Hf0]|].
+        rewrite <- E0. apply IH; [cbn in Hf; lia|exact Hall'|exact Hfo|exact Hnf|exact Hni].
+      + eapply run_orelse_miss; [apply run_for_spec_miss'; reflexivity|].
+        eapply run_orelse_hit;
+          [apply run_if_spec; [exact Hc|exact Hw|cbn [List.length] in Hl; lia|exact Hf0]|].
+        rewrite <- E0. apply IH; [cbn in Hf; lia|exact Hall'|exact Hfo|exact Hnf|exact Hni].
+  Qed.
+
+  Lemma run_comp_spec lf' specs fo r : specs_ok specs = true -> (List.length specs <= lf')%nat ->
+    Forall spec_ok specs -> spec_follow fo -> is_simple KFor fo = false -> is_simple KIf fo = false ->
+    run (maybe_parse_comp_spec pexpr lf') (flat_map print_spec specs ++ fo :: r)
+        (Some (map strip_spec specs)) (fo :: r).
+  Proof.
+    intros Hok Hlf Hall Hfo Hnf Hni. destruct specs as [|[v y|y] more]; cbn [specs_ok] in Hok; try discriminate.
+    inversion Hall as [|? ? (Hc & Hw & Hl) Hall']; subst.
+    unfold maybe_parse_comp_spec. apply run_call. cbn [flat_map print_spec app map strip_spec].
+    destruct (specs_head more fo r Hfo) as (t0 & r0 & E0 & Hf0).
+    rewrite <- app_assoc. rewrite E0. cbn [score wp_spec print_spec] in *.
+    eapply run_orelse_hit; [apply run_for_spec; [exact Hc|exact Hw|cbn [List.length] in Hl; lia|exact Hf0]|].
+    eapply run_bind; [|apply run_ret].
+    rewrite <- E0.
+    apply (run_comp_loop more [CFor (strip_ident v) (strip_spans y)]); [cbn in Hlf; lia|exact Hall'|exact Hfo|exact Hnf|exact Hni].
+  Qed.
 End Suffix.
 
 Lemma run_eat_miss_app k add l t c r : l = c :: r -> is_simple k c = false ->
@@ -398,6 +563,19 @@ Proof. intros -> H. apply run_eat_miss; exact H. Qed.
 Lemma flat_len {A} (f : A -> list token) (l : list A) :
   (List.length l <= List.length (flat_map (fun y => comma ++ f y) l))%nat.
 Proof. induction l as [|x l IH]; cbn [flat_map List.length]; [lia|]. rewrite !app_length. cbn [comma List.length]. lia. Qed.
+
+Lemma pl_item0_comp pexpr lf f e stk c t specs' t2 (a : expr) t' :
+  is_simple SComma c = false ->
+  run (maybe_parse_comp_spec pexpr (S lf)) (c :: t) (Some specs') (sim SRightBracket :: t2) -> t2 <> [] ->
+  run (pe_loop T pexpr (S lf) f (StParsed (EArrayComp sp0 e specs')) stk) t2 a t' ->
+  run (pe_loop T pexpr (S lf) (S f) (StParsed e) (SiArrayItem0 sp0 :: stk)) (c :: t) a t'.
+Proof.
+  intros Hc Hs Ht H. cbn [pe_loop].
+  eapply run_bind; [apply run_eat_miss; exact Hc|].
+  eapply run_orelse_hit; [exact Hs|].
+  eapply run_bind; [apply run_expect_hit; [reflexivity|exact Ht]|].
+  eapply run_bind; [apply run_mk_span0|]. exact H.
+Qed.
 
 Lemma arg_head a : acore a = true -> exists c r, print_arg a = c :: r /\ is_simple SRightParen c = false.
 Proof.
@@ -447,6 +625,54 @@ Definition Sform (e : expr) (c m : nat) : Prop :=
 
 Ltac norm_app := repeat (progress (rewrite <- ?app_assoc; cbn [app])).
 
+Lemma app_eq_cons_l {A} (l : list A) c r t : l = c :: r -> l ++ t = c :: (r ++ t).
+Proof. intros ->. reflexivity. Qed.
+
+Definition item_ok (n : nat) (x : expr) : Prop :=
+  (esize x < n)%nat /\ core_expr x = true /\ wpx 0 true x = true.
+Definition items_toks (x1 : expr) (more : list expr) : list token :=
+  print_expr x1 ++ flat_map (fun y => comma ++ print_expr y) more.
+
+Lemma array_items n
+  (IH : forall y, (esize y < n)%nat -> core_expr y = true -> forall k last, (k <= 10)%nat ->
+        wpx k last y = true -> exists c, (c <= 40 * List.length (print_expr y))%nat /\ Bform k last y c) :
+  forall more x1, Forall (item_ok n) (x1 :: more) ->
+  exists c, (c <= 40 * (List.length (items_toks x1 more) + 1))%nat /\
+    forall pexpr lf Lb f stk acc rest (X : expr) tf,
+      pexpr_ok pexpr Lb -> (Lb <= lf)%nat -> (List.length (items_toks x1 more) <= Lb)%nat -> rest <> [] ->
+      run (pe_loop T pexpr (S lf) f (StParsed (EArray sp0 (acc ++ map strip_spans (x1 :: more)))) stk) rest X tf ->
+      run (pe_loop T pexpr (S lf) (c + f) (init_state T) (SiArrayItemN sp0 acc :: stk))
+          (items_toks x1 more ++ sim SRightBracket :: rest) X tf.
+Proof.
+  induction more as [|x2 more IHm]; intros x1 Hall;
+    inversion Hall as [|? ? (Hs1 & Hc1 & Hw1) Hall']; subst;
+    destruct (IH x1 Hs1 Hc1 0%nat true ltac:(lia) Hw1) as (c1 & Hb1 & HB1).
+  - exists (c1 + 2)%nat. unfold items_toks. cbn [flat_map]. rewrite app_nil_r. split; [lia|].
+    intros pexpr lf Lb f stk acc rest X tf Hp Hlf HL Hr H.
+    fuel_as (c1 + (2 + f))%nat. change (init_state T) with (enter 0).
+    apply HB1; [eapply pexpr_ok_mono; [exact Hp|exact HL]|lia|reflexivity|intros _; reflexivity|].
+    change (exit_ 0 (strip_spans x1)) with (StBinaryRhs (kind 0) (strip_spans x1)). cbn [Nat.add].
+    apply pl_rhs_none; [reflexivity|]. apply pl_itemN_last; [exact Hr|exact H].
+  - destruct (IHm x2 Hall') as (c' & Hb' & HB').
+    inversion Hall' as [|? ? (_ & Hc2 & _) _]; subst.
+    destruct (core_head x2 Hc2) as (ch & rh & Eh & _ & Hst).
+    exists (c1 + (2 + c'))%nat. unfold items_toks in *. cbn [flat_map]. unfold comma at 1 3.
+    split; [revert Hb'; repeat (rewrite app_length; cbn [List.length]); lia|].
+    intros pexpr lf Lb f stk acc rest X tf Hp Hlf HL Hr H.
+    assert (HL1 : (List.length (print_expr x1) <= Lb)%nat) by (revert HL; repeat (rewrite app_length; cbn [List.length]); lia).
+    assert (HL2 : (List.length (print_expr x2 ++ flat_map (fun y => comma ++ print_expr y) more) <= Lb)%nat)
+      by (revert HL; repeat (rewrite app_length; cbn [List.length]); lia).
+    norm_app.
+    fuel_as (c1 + (2 + (c' + f)))%nat. change (init_state T) with (enter 0).
+    apply HB1; [eapply pexpr_ok_mono; [exact Hp|exact HL1]|lia|reflexivity|intros _; reflexivity|].
+    change (exit_ 0 (strip_spans x1)) with (StBinaryRhs (kind 0) (strip_spans x1)). cbn [Nat.add].
+    apply pl_rhs_none; [reflexivity|].
+    rewrite app_assoc.
+    eapply pl_itemN_more'; [apply app_eq_cons_l; exact Eh|exact Hst|].
+    apply (HB' pexpr lf Lb); [exact Hp|exact Hlf|exact HL2|exact Hr|].
+    rewrite <- app_assoc. exact H.
+Qed.
+
 Lemma sform n
   (IH : forall y, (esize y < n)%nat -> core_expr y = true -> forall k last, (k <= 10)%nat ->
         wpx k last y = true -> exists c, (c <= 40 * List.length (print_expr y))%nat /\ Bform k last y c) :
@@ -477,6 +703,92 @@ Proof.
     apply pl_rhs_none; [reflexivity|].
     apply pl_parsed_paren; [exact Hr|].
     rewrite Nat.sub_0_r in H1. eapply pl_parsed_suffix_gen; [exact H1|exact H2].
+  - (* EArray *)
+    cbn [wpx] in Hwp. cbn [esize] in Hsz.
+    assert (Hall : Forall (item_ok n) items).
+    { apply Forall_forall. intros x Hin. rewrite forallb_forall in Hcore, Hwp.
+      pose proof (lsum_in esize items x Hin). split; [lia|]. split; [apply Hcore|apply Hwp]; exact Hin. }
+    destruct items as [|x1 more].
+    + exists 3%nat, 0%nat. split; [cbn [print_expr sep_by app List.length]; lia|]. split; [lia|].
+      intros pexpr lf f stk rest R t' X tf Hp Hlf Hr _ H1 H2.
+      cbn [print_expr sep_by strip_spans map app Nat.add].
+      apply pl_unary_miss; [reflexivity|]. apply pl_primary_bracket; [discriminate|].
+      eapply run_orelse_hit; [apply run_eat_hit; [reflexivity|exact Hr]|].
+      eapply run_bind; [apply run_mk_span0|].
+      rewrite Nat.sub_0_r in H1. eapply pl_parsed_suffix_gen; [exact H1|exact H2].
+    + inversion Hall as [|? ? (Hs1 & Hc1 & Hw1) Hall']; subst.
+      destruct (IH x1 Hs1 Hc1 0%nat true ltac:(lia) Hw1) as (c1 & Hb1 & HB1).
+      destruct (core_head x1 Hc1) as (ch1 & rh1 & Eh1 & _ & Hst1).
+      destruct more as [|x2 more].
+      * exists (2 + (c1 + 3))%nat, 0%nat. split; [len_tac|]. split; [lia|].
+        intros pexpr lf f stk rest R t' X tf Hp Hlf Hr _ H1 H2.
+        cbn [print_expr sep_by flat_map strip_spans map]. rewrite app_nil_r. norm_app. cbn [Nat.add].
+        apply pl_unary_miss; [reflexivity|]. apply pl_primary_bracket; [auto with rt|].
+        eapply run_orelse_miss; [eapply run_eat_miss_app; [exact Eh1|apply starter_not; [exact Hst1|reflexivity]]|].
+        change (init_state T) with (enter 0). fuel_as (c1 + (3 + f))%nat.
+        apply HB1; [eapply pexpr_ok_mono; [exact Hp|len_tac]|revert Hlf; len_tac|reflexivity|intros _; reflexivity|].
+        change (exit_ 0 (strip_spans x1)) with (StBinaryRhs (kind 0) (strip_spans x1)). cbn [Nat.add].
+        apply pl_rhs_none; [reflexivity|]. apply pl_item0_single; [exact Hr|].
+        rewrite Nat.sub_0_r in H1. eapply pl_parsed_suffix_gen; [exact H1|exact H2].
+      * destruct (array_items n IH more x2 Hall') as (c' & Hb' & HB').
+        inversion Hall' as [|? ? (_ & Hc2 & _) _]; subst.
+        destruct (core_head x2 Hc2) as (ch2 & rh2 & Eh2 & _ & Hst2).
+        exists (2 + (c1 + (2 + (c' + 1))))%nat, 0%nat.
+        assert (Elen : List.length (print_expr (EArray sp (x1 :: x2 :: more))) =
+                       (List.length (print_expr x1) + List.length (items_toks x2 more) + 3)%nat).
+        { cbn [print_expr sep_by flat_map]. unfold items_toks, comma. repeat (rewrite app_length; cbn [List.length]). lia. }
+        split; [lia|]. split; [lia|].
+        intros pexpr lf f stk rest R t' X tf Hp Hlf Hr _ H1 H2. rewrite Elen in Hp, Hlf.
+        cbn [print_expr sep_by flat_map strip_spans]. unfold comma at 1. norm_app. cbn [Nat.add].
+        apply pl_unary_miss; [reflexivity|]. apply pl_primary_bracket; [auto with rt|].
+        eapply run_orelse_miss; [eapply run_eat_miss_app; [exact Eh1|apply starter_not; [exact Hst1|reflexivity]]|].
+        change (init_state T) with (enter 0). fuel_as (c1 + (2 + (c' + (1 + f))))%nat.
+        apply HB1; [eapply pexpr_ok_mono; [exact Hp|lia]|lia|reflexivity|intros _; reflexivity|].
+        change (exit_ 0 (strip_spans x1)) with (StBinaryRhs (kind 0) (strip_spans x1)). cbn [Nat.add].
+        apply pl_rhs_none; [reflexivity|].
+        change (print_expr x2 ++ flat_map (fun y => comma ++ print_expr y) more ++ sim SRightBracket :: rest)
+          with (print_expr x2 ++ (flat_map (fun y => comma ++ print_expr y) more ++ sim SRightBracket :: rest)).
+        rewrite app_assoc.
+        eapply pl_item0_more'; [apply app_eq_cons_l; exact Eh2|exact Hst2|].
+        eapply (HB' pexpr lf _ _ _ [strip_spans x1]); [exact Hp|lia|unfold items_toks; lia|exact Hr|].
+        cbn [app map] in *. apply pl_parsed_suffix_gen with (R := R) (t1 := t'); [|exact H2].
+        rewrite Nat.sub_0_r in H1. exact H1.
+  - (* EArrayComp *)
+    cbn [wpx] in Hwp. cbn [esize] in Hsz.
+    apply andb_true_iff in Hwp as [Hwp Hws]. apply andb_true_iff in Hwp as [Hwx Hok].
+    apply andb_true_iff in Hcore as [Hcx Hcs]. apply andb_true_iff in Hcx as [Hcx _].
+    destruct (IH e ltac:(lia) Hcx 0%nat true ltac:(lia) Hwx) as (c1 & Hb1 & HB1).
+    destruct (core_head e Hcx) as (ch1 & rh1 & Eh1 & _ & Hst1).
+    exists (2 + (c1 + 3))%nat, 0%nat.
+    assert (Elen : List.length (print_expr (EArrayComp sp e specs)) =
+                   (List.length (print_expr e) + List.length (flat_map print_spec specs) + 2)%nat).
+    { change (print_expr (EArrayComp sp e specs)) with (sim SLeftBracket :: print_expr e ++ flat_map print_spec specs ++ [sim SRightBracket]).
+      cbn [List.length]. repeat (rewrite app_length; cbn [List.length]). lia. }
+    split; [lia|]. split; [lia|].
+    intros pexpr lf f stk rest R t' X tf Hp Hlf Hr _ H1 H2. rewrite Elen in Hp, Hlf.
+    assert (Hall : Forall (spec_ok (List.length (print_expr e) + List.length (flat_map print_spec specs) + 2)) specs).
+    { apply Forall_forall. intros sc Hin. rewrite forallb_forall in Hcs, Hws.
+      split; [apply (Hcs sc Hin)|]. split; [apply (Hws sc Hin)|].
+      assert (List.length (print_spec sc) <= List.length (flat_map print_spec specs))%nat; [|lia].
+      clear -Hin. induction specs as [|s0 more IHs]; [destruct Hin|]. cbn [flat_map]. rewrite app_length.
+      destruct Hin as [->|Hin]; [lia|]. specialize (IHs Hin). lia. }
+    assert (Hsl : (List.length specs <= List.length (flat_map print_spec specs))%nat).
+    { clear. induction specs as [|s0 more IHs]; [cbn; lia|]. cbn [flat_map List.length]. rewrite app_length.
+      destruct s0; cbn [print_spec List.length]; lia. }
+    change (print_expr (EArrayComp sp e specs)) with (sim SLeftBracket :: print_expr e ++ flat_map print_spec specs ++ [sim SRightBracket]).
+    change (strip_spans (EArrayComp sp e specs)) with (EArrayComp sp0 (strip_spans e) (map strip_spec specs)) in H1.
+    norm_app. cbn [Nat.add].
+    apply pl_unary_miss; [reflexivity|]. apply pl_primary_bracket; [auto with rt|].
+    eapply run_orelse_miss; [eapply run_eat_miss_app; [exact Eh1|apply starter_not; [exact Hst1|reflexivity]]|].
+    change (init_state T) with (enter 0). fuel_as (c1 + (3 + f))%nat.
+    destruct specs as [|[v y|y] more]; cbn [specs_ok] in Hok; try discriminate.
+    apply HB1; [eapply pexpr_ok_mono; [exact Hp|lia]|lia|reflexivity|intros _; reflexivity|].
+    change (exit_ 0 (strip_spans e)) with (StBinaryRhs (kind 0) (strip_spans e)). cbn [Nat.add].
+    apply pl_rhs_none; [reflexivity|].
+    eapply (pl_item0_comp pexpr lf _ _ _ (sim KFor)); [reflexivity| |exact Hr|].
+    + apply (run_comp_spec pexpr _ Hp (S lf) (CFor v y :: more) (sim SRightBracket) rest);
+        [reflexivity|lia|exact Hall|split; reflexivity|reflexivity|reflexivity].
+    + rewrite Nat.sub_0_r in H1. eapply pl_parsed_suffix_gen; [exact H1|exact H2].
   - (* EField *)
     cbn [wpx] in Hwp. cbn [esize] in Hsz.
     destruct (IHe ltac:(lia) Hcore Hwp) as (c & m & Hbc & Hbm & HS).
@@ -613,6 +925,8 @@ Proof.
     apply pl_rhs_none; [reflexivity|].
     apply pl_parsed_paren; [discriminate|].
     apply pl_parsed_suffix_none; [exact Hn|exact H].
+  - (* EArray *) apply (suffix_case n IH); [cbn [esize] in *; lia|exact Hcore|exact Hwp|exact Hk].
+  - (* EArrayComp *) apply (suffix_case n IH); [cbn [esize] in *; lia|exact Hcore|exact Hwp|exact Hk].
   - (* EField *) apply (suffix_case n IH); [cbn [esize] in *; lia|exact Hcore|exact Hwp|exact Hk].
   - (* EIndex *) apply (suffix_case n IH); [cbn [esize] in *; lia|exact Hcore|exact Hwp|exact Hk].
   - (* ESlice *) apply (suffix_case n IH); [cbn [esize] in *; lia|exact Hcore|exact Hwp|exact Hk].
